@@ -23,6 +23,7 @@ func init() { reg.Register(&reg.Prop{ID: "C13", Run: Run, Replay: Replay}) }
 //	all  i    read member i's Data from its current position to the end
 //	part i    io.ReadFull of 2 bytes from member i's Data at its current position
 //	seek i    Data.Seek(0, SeekStart), then read to the end
+//	skip i    Data.Seek(3, SeekStart): moves member i's position (also past the end of a short member) without reading
 //	tar  i c  IsTarfile / Tarfile of member i (after Seek(0)): list the tar, call the closer c (1 or 2) times, then
 //	          Seek(0) and re-read the member (tar.go)
 type Op struct {
@@ -166,9 +167,21 @@ func (s *sess) step(op Op) (f *fail) {
 		return nil // not applicable (replay of a hand-edited input): ignored
 	}
 	r, data, pos := s.got[op.I].Data, s.exp[op.I].Data, s.pos[op.I]
+	defer func() {
+		if f == nil {
+			f = s.positions(op)
+		}
+	}()
 	switch op.K {
 	case "tar":
 		return s.tarStep(op)
+	case "skip":
+		off, err := r.Seek(3, io.SeekStart)
+		if off != 3 || err != nil {
+			return &fail{"reader-seek", "Seek(3, SeekStart) = (3, nil)", fmt.Sprintf("(%d, %v)", off, err)}
+		}
+		s.pos[op.I] = 3
+		return nil
 	case "all", "seek":
 		if op.K == "seek" {
 			off, err := r.Seek(0, io.SeekStart)
@@ -177,12 +190,27 @@ func (s *sess) step(op Op) (f *fail) {
 			}
 			pos = 0
 		}
-		got, msg := s.readRest(r)
-		if msg != "" || !bytes.Equal(got, data[pos:]) {
-			return &fail{"reader-bytes", fmt.Sprintf("%s of #%d from position %d: %q", op.K, op.I, pos, data[pos:]), fmt.Sprintf("%q %s", got, msg)}
+		past := pos > len(data) // moved past the end by skip: a read yields nothing and leaves the position alone
+		from := pos
+		if past {
+			from = len(data)
 		}
-		s.pos[op.I] = len(data)
+		got, msg := s.readRest(r)
+		if msg != "" || !bytes.Equal(got, data[from:]) {
+			return &fail{"reader-bytes", fmt.Sprintf("%s of #%d from position %d: %q", op.K, op.I, pos, data[from:]), fmt.Sprintf("%q %s", got, msg)}
+		}
+		if !past {
+			pos = len(data)
+		}
+		s.pos[op.I] = pos
 	case "part":
+		if pos > len(data) { // the reader was moved past the end: nothing to read, position unchanged
+			n, err := io.ReadFull(r, s.part[:])
+			if n != 0 || err != io.EOF {
+				return &fail{"reader-bytes", fmt.Sprintf("ReadFull(2) of #%d past its end: 0 bytes, EOF", op.I), fmt.Sprintf("%d bytes, %v", n, err)}
+			}
+			return nil
+		}
 		k := len(data) - pos
 		if k > 2 {
 			k = 2
@@ -200,6 +228,18 @@ func (s *sess) step(op Op) (f *fail) {
 				fmt.Sprintf("%q, %v", s.part[:n], err)}
 		}
 		s.pos[op.I] = pos + k
+	}
+	return nil
+}
+
+// positions: every reader handed out so far is where the model says it is - an operation on one member's reader
+// must not move another member's (independent readers), empty members included.
+func (s *sess) positions(op Op) *fail {
+	for j, e := range s.got {
+		off, err := e.Data.Seek(0, io.SeekCurrent)
+		if err != nil || off != int64(s.pos[j]) {
+			return &fail{"reader-independent", fmt.Sprintf("after %s the reader of member #%d is at position %d", op, j, s.pos[j]), fmt.Sprintf("(%d, %v)", off, err)}
+		}
 	}
 	return nil
 }
